@@ -647,7 +647,14 @@ impl<'a> GeneratorState<'a> {
                 | Operation::Lt
                 | Operation::Lte
                 | Operation::Land
-                | Operation::Lor => self.generate_expr_cond(expr, pos),
+                | Operation::Lor => {
+                    if high_byte {
+                        // a truth value is 0 or 1: its high byte is 0
+                        Ok(ExprType::Immediate(0))
+                    } else {
+                        self.generate_expr_cond(expr, pos)
+                    }
+                }
                 Operation::Bls(true) | Operation::Brs(true) => {
                     let left = self.generate_expr(lhs, pos, false, second_time)?;
                     let right = self.generate_expr(rhs, pos, false, second_time)?;
@@ -681,7 +688,7 @@ impl<'a> GeneratorState<'a> {
                     let right = self.generate_expr(rhs, pos, false, second_time)?;
                     self.generate_shift(&left, op, &right, pos, high_byte)
                 }
-                Operation::TernaryCond1 => self.generate_ternary(lhs, rhs, pos),
+                Operation::TernaryCond1 => self.generate_ternary(lhs, rhs, pos, high_byte),
                 Operation::TernaryCond2 => Err(self
                     .compiler_state
                     .syntax_error("Unexpected ':'. Probably a ';' typo", pos)),
@@ -892,7 +899,13 @@ impl<'a> GeneratorState<'a> {
                 Ok(expr_type)
             }
             Expr::Neg(v) => self.generate_neg(v, pos, high_byte),
-            Expr::Not(v) => self.generate_not(v, pos),
+            Expr::Not(v) => {
+                if high_byte {
+                    Ok(ExprType::Immediate(0))
+                } else {
+                    self.generate_not(v, pos)
+                }
+            }
             Expr::BNot(v) => self.generate_bnot(v, pos, high_byte),
             Expr::Deref(v) => self.generate_deref(v, pos),
             Expr::Addr(v) => self.generate_addr(v, pos),
